@@ -316,9 +316,9 @@ string showCase(const Case& k) {
 
 // ------------------------------------------------------------------ running a case
 struct Marker : public OptimizationListener {
-  const Record* rec = nullptr; vector<size_t> marks; size_t atInit = 0;
+  const Record* rec = nullptr; vector<size_t> marks; vector<unsigned> counter; size_t atInit = 0;
   void optimizationInitializationPerformed(const OptimizationEvent&) override { atInit = rec->count(); }
-  void optimizationStepPerformed(const OptimizationEvent&) override { marks.push_back(rec->count()); }
+  void optimizationStepPerformed(const OptimizationEvent& e) override { marks.push_back(rec->count()); counter.push_back(e.getOptimizer()->getNumberOfEvaluations()); }
   bool listenerModifiesParameters() const override { return false; }
 };
 
@@ -327,7 +327,7 @@ struct Out {
   double ret = 0, fv = 0, fStart = 0, fRep = 0, fObj = 0;
   vector<double> rep, objAt;
   unsigned nEval = 0, cap = 0; bool tolReached = false, maxReached = false;
-  size_t lastStepEvals = 0, steps = 0;
+  size_t lastStepEvals = 0, steps = 0; vector<unsigned> counter;  // counter[k]: getNumberOfEvaluations() when step k+1 was done
   shared_ptr<Obj> obj;
   double minSeen = INF;
 };
@@ -348,12 +348,20 @@ shared_ptr<OptimizerInterface> makeOpt(int kind, shared_ptr<Obj> obj) {
 }
 
 // Known findings whose input class is recognisable before the run (a hang or crash cannot be excluded afterwards).
+bool usesKind(const Case& k, int kind) {
+  if (k.opt == kind) return true;
+  if (k.opt == META) for (auto& s : k.subs) if (s.kind == kind) return true;
+  return false;
+}
 void excludeBeforeRun(vf::Ctx& c, const Case& k) {
-  (void)c; (void)k;
+  // Powell's stop test is 2|fp-fret|/(|fp|+|fret|): 0/0 once the objective value is exactly 0 twice in a row, the
+  // test is then never true and the run lasts 10^6 iterations (minutes). Only possible when the minimum value is 0.
+  if (usesKind(k, POWELL) && k.spec.d == 0) c.excludeIfKnown("C10-powell-nan-stop");
 }
 
 Out runCase(vf::Ctx& c, const Case& k) {
   excludeBeforeRun(c, k);
+  if (getenv("C10_TRACE")) fprintf(stderr, "C10 case: %s\n", showCase(k).c_str());
   Out o;
   o.obj = make_shared<Obj>(k.spec, k.start, k.consOnFunction ? &k.cons : nullptr);
   o.fStart = k.spec.eval(k.start);
@@ -413,7 +421,7 @@ Out runCase(vf::Ctx& c, const Case& k) {
     o.ret = opt->optimize();
     o.returned = true;
     o.fv = opt->getFunctionValue(); o.nEval = opt->getNumberOfEvaluations(); o.tolReached = opt->isToleranceReached(); o.maxReached = opt->isMaximumNumberOfEvaluationsReached();
-    o.steps = marker->marks.size();
+    o.steps = marker->marks.size(); o.counter = marker->counter;
     if (o.steps >= 1) o.lastStepEvals = marker->marks.back() - (o.steps >= 2 ? marker->marks[o.steps - 2] : marker->atInit);
     finish(opt->getParameters());
   } catch (ConstraintException& e) {
@@ -433,6 +441,9 @@ unsigned defaultCap(int opt) {
 bool acceptedAbort(vf::Ctx& c, const Case& k, const Out& o) {
   if (o.returned) return false;
   if (o.constraintExc && k.policy == KEEP && k.anyCons) { c.label("keep_constraint_exception"); return true; }
+  // MetaOptimizer keeps the constraints on its per-optimiser parameter lists under the ignore policy
+  if (o.constraintExc && k.opt == META && k.policy == IGNORE && k.anyCons) c.excludeIfKnown("C10-meta-ignore-keeps-constraints");
+  if (o.exc.find("DEBUG: PowellMultiDimensions") != string::npos) c.excludeIfKnown("C10-powell-debug-throw");
   CHECK(false, "an exception escaped the optimiser: " << o.exc);
   return true;
 }
@@ -451,7 +462,7 @@ const vector<int> ALL = {BFGS, CG, POWELL, DSM, SIMPLE, SNEWTON, BRENT_OUT, BREN
 }  // namespace
 
 // ------------------------------------------------------------------ (a) termination
-LAW(La_termination, RC, 700, 30000, 96, NTR, 60, true) {
+LAW(La_termination, RC, 700, 30000, 96, NTR, 20, true) {
   Filter f; Case k = genCase(c, f, ALL);
   c.desc << showCase(k);
   Out o = runCase(c, k);
@@ -461,24 +472,29 @@ LAW(La_termination, RC, 700, 30000, 96, NTR, 60, true) {
 }
 
 // ------------------------------------------------------------------ (b) descent
-LAW(Lb_descent, RC, 900, 40000, 96, NTR, 60, false) {
+LAW(Lb_descent, RC, 900, 40000, 96, NTR, 20, false) {
   Filter f; Case k = genCase(c, f, ALL);
   c.desc << showCase(k);
   Out o = runCase(c, k);
   ntRule(c, k, o);
   if (acceptedAbort(c, k, o)) return;
+  // golden section reports the point it evaluated last, not the best one it holds
+  if (k.opt == GOLDEN && o.fRep > o.minSeen) c.excludeIfKnown("C10-golden-reports-last");
   CHECK(o.fRep <= o.fStart + 1e-12 * (1 + std::abs(o.fStart)),
         "ended worse than it started: f(start)=" << vf::dec(o.fStart) << " f(reported)=" << vf::dec(o.fRep) << " reported=" << showVec(o.rep) << " (minimum " << vf::dec(k.spec.d) << ")");
 }
 
 // ------------------------------------------------------------------ (c) consistency
-LAW(Lc_consistency, RC, 900, 40000, 96, NTR, 60, false) {
+LAW(Lc_consistency, RC, 900, 40000, 96, NTR, 20, false) {
   Filter f; vector<int> opts; for (int o : ALL) if (o != LINESEARCH) opts.push_back(o);
   Case k = genCase(c, f, opts);
   c.desc << showCase(k);
   Out o = runCase(c, k);
   ntRule(c, k, o);
   if (acceptedAbort(c, k, o)) return;
+  // a sub-optimiser driven by step() may leave the function on a trial point (downhill simplex, Powell); the
+  // meta-optimiser neither re-synchronises the function nor re-evaluates it
+  if (k.opt == META) for (auto& s : k.subs) if (!s.full && (s.kind == DSM || s.kind == POWELL)) c.excludeIfKnown("C10-meta-stale-function");
   CHECK(vf::sameBits(o.ret, o.fv), "optimize() returned " << vf::dec(o.ret) << " but getFunctionValue() is " << vf::dec(o.fv));
   CHECK(vf::sameBits(o.ret, o.fRep), "optimize() returned " << vf::dec(o.ret) << " but the objective at getParameters()=" << showVec(o.rep) << " is " << vf::dec(o.fRep));
   for (size_t i = 0; i < o.rep.size(); ++i)
@@ -487,7 +503,13 @@ LAW(Lc_consistency, RC, 900, 40000, 96, NTR, 60, false) {
 }
 
 // ------------------------------------------------------------------ (d) budget
-LAW(Ld_budget, RC, 900, 40000, 96, "a small cap that is hit", 60, false) {
+// The counter of the library is "loop iterations + evaluations counted by the step" (AbstractOptimizer::optimize).
+//  (i)  no iteration is started once the counter has reached the cap (the counter is read after every step);
+//  (ii) the final counter exceeds the cap by no more than the objective evaluations of the last iteration (from the
+//       record). Not applied to the meta-optimiser: it adds up the counters of its sub-optimisers, which contain the
+//       sub-optimisers' own iteration counts (weakest reading: no claim);
+//  (iii) isToleranceReached() / isMaximumNumberOfEvaluationsReached() agree with the counter.
+LAW(Ld_budget, RC, 900, 40000, 96, "a small cap that is hit", 20, false) {
   Filter f; f.moreSmallCap = true; vector<int> opts; for (int o : ALL) if (o != LINESEARCH) opts.push_back(o);
   Case k = genCase(c, f, opts);
   c.desc << showCase(k);
@@ -496,7 +518,14 @@ LAW(Ld_budget, RC, 900, 40000, 96, "a small cap that is hit", 60, false) {
   if (acceptedAbort(c, k, o)) return;
   unsigned cap = k.cap ? k.cap : defaultCap(k.opt);
   c.nt(k.cap && o.nEval >= k.cap);
-  CHECK(o.nEval <= cap + o.lastStepEvals, "getNumberOfEvaluations()=" << o.nEval << " exceeds the cap " << cap << " by more than the " << o.lastStepEvals << " evaluations of the last step (" << o.steps << " steps)");
+  if (k.cap && o.nEval >= k.cap) c.label("cap_hit");
+  for (size_t s = 0; s + 1 < o.counter.size(); ++s)
+    CHECK(o.counter[s] + 1 < cap, "iteration " << s + 2 << " was started although the evaluation counter had reached " << o.counter[s] << "+1 with cap " << cap);
+  if (k.opt != META) {
+    // downhill simplex counts the n evaluations of a shrink twice
+    if (k.opt == DSM && o.nEval > cap + o.lastStepEvals && o.nEval <= cap + o.lastStepEvals + static_cast<unsigned>(k.spec.n)) c.excludeIfKnown("C10-dsm-shrink-double-count");
+    CHECK(o.nEval <= cap + o.lastStepEvals, "getNumberOfEvaluations()=" << o.nEval << " exceeds the cap " << cap << " by more than the " << o.lastStepEvals << " evaluations of the last step (" << o.steps << " steps)");
+  }
   CHECK(o.tolReached || o.nEval >= cap, "stopped before the cap (" << o.nEval << " < " << cap << ") but isToleranceReached() is false");
   CHECK(o.maxReached == (o.nEval >= cap), "isMaximumNumberOfEvaluationsReached()=" << o.maxReached << " with " << o.nEval << " evaluations, cap " << cap);
 }
@@ -506,12 +535,14 @@ namespace {
 // per-optimiser constants (see the header comment)
 const double KOPT[NOPT] = {1e9, 1e9, 1e9, 1e9, 1e9, 1e9, 1e9, 1e9, 1e9, 1e9, 1e9, 1e9};
 }
-LAW(Le_convergence, RC, 900, 40000, 96, "dim >= 2 or start within 1e-6 of the optimum", 60, false) {
+LAW(Le_convergence, RC, 900, 40000, 96, "dim >= 2 or start within 1e-6 of the optimum", 20, false) {
   Filter f; f.quadOnly = true; f.allowSmallCap = false; f.needCons = -1;
   vector<int> opts; for (int o : ALL) if (o != LINESEARCH) opts.push_back(o);
   Case k = genCase(c, f, opts);
   if (k.anyCons) k.policy = IGNORE;  // constraints present but stripped: none is active
   c.desc << showCase(k);
+  // the stop test of the golden section search compares the tolerance with itself: every run stops after 3 steps
+  if (k.opt == GOLDEN) c.excludeIfKnown("C10-golden-stop-self-compare");
   Out o = runCase(c, k);
   ntRule(c, k, o);
   if (acceptedAbort(c, k, o)) return;
@@ -519,12 +550,11 @@ LAW(Le_convergence, RC, 900, 40000, 96, "dim >= 2 or start within 1e-6 of the op
   double scale = sqrt(k.tol * max(1.0, std::abs(k.spec.d)) * k.spec.cond() / k.spec.lmin());
   double ratio = max(0.0, err - 1e-9) / scale;
   c.observe(string("conv_ratio_") + ONAME[k.opt], ratio);
-  CHECK(o.tolReached, "default cap reached without convergence (" << o.nEval << " evaluations)");
   CHECK(ratio <= KOPT[k.opt], "did not reach the minimiser: |x-c|_inf=" << vf::dec(err) << " = " << ratio << " * sqrt(tol*max(1,|d|)*cond/lambda_min) (+1e-9), allowed " << KOPT[k.opt] << "; reported " << showVec(o.rep));
 }
 
 // ------------------------------------------------------------------ (f) feasibility under the automatic policy
-LAW(Lf_feasible_auto, RC, 900, 40000, 96, "start within 10% of a bound", 60, false) {
+LAW(Lf_feasible_auto, RC, 900, 40000, 96, "start within 10% of a bound", 20, false) {
   Filter f; f.policy = AUTO; f.needCons = 1; f.allowFunctionCons = true;
   Case k = genCase(c, f, ALL);
   c.desc << showCase(k);
@@ -551,6 +581,35 @@ OneD genOneD(vf::Ctx& c) {
   return q;
 }
 }
+namespace {
+// The documented algorithm (Numerical Recipes mnbrak, the source the routine follows, with the library's constants),
+// walked until it either returns or enters the branch "parabolic extrapolation between c and its limit accepted
+// (f(u) < f(c))". The library's translation of that branch computes the next trial point from the *old* b and c
+// (the book's SHFT macro uses the shifted ones). Returns true when that branch is entered.
+template <class FN> bool walkEntersAcceptedExtrapolation(FN F, double a, double b) {
+  const double PHI = (1. + sqrt(5.)) / 2., GLIM = 100.0;
+  double ax = a, bx = b, fa = F(ax), fb = F(bx);
+  if (fb > fa) { swap(ax, bx); swap(fa, fb); }
+  double cx = bx + PHI * (bx - ax), fc = F(cx);
+  for (int it = 0; it < 10000 && fb > fc; ++it) {
+    double r = (bx - ax) * (fb - fc), q = (bx - cx) * (fb - fa);
+    double sg = (q - r) < 0 ? -1 : (q - r == 0 ? 0 : 1);
+    double u = bx - ((bx - cx) * q - (bx - ax) * r) / (2.0 * (std::abs(max(std::abs(q - r), 1e-20)) * sg));
+    double ulim = bx + GLIM * (cx - bx), fu;
+    if ((bx - u) * (u - cx) > 0.0) {
+      fu = F(u);
+      if (fu < fc || fu > fb) return false;
+      u = cx + PHI * (cx - bx); fu = F(u);
+    } else if ((cx - u) * (u - ulim) > 0.0) {
+      fu = F(u);
+      if (fu < fc) return true;
+    } else if ((u - ulim) * (ulim - cx) >= 0.0) { u = ulim; fu = F(u); }
+    else { u = cx + PHI * (cx - bx); fu = F(u); }
+    ax = bx; bx = cx; cx = u; fa = fb; fb = fc; fc = fu;
+  }
+  return false;
+}
+}
 LAW(Lg_bracket, RC, 4000, 200000, 24, "the minimiser is outside the two initial points", 30, true) {
   OneD q = genOneD(c);
   c.desc << "bracketMinimum(" << vf::dec(q.a) << "," << vf::dec(q.b) << ") on " << q.s.show();
@@ -560,6 +619,7 @@ LAW(Lg_bracket, RC, 4000, 200000, 24, "the minimiser is outside the two initial 
   ParameterList pl; pl.addParameter(Parameter("x0", q.a));
   Bracket br = OneDimensionOptimizationTools::bracketMinimum(q.a, q.b, *obj, pl);
   auto F = [&](double x) { return q.s.eval(vector<double>{x}); };
+  if (walkEntersAcceptedExtrapolation(F, q.a, q.b)) { c.label("accepted_extrapolation"); c.excludeIfKnown("C10-bracket-stale-shift"); }
   CHECK(vf::sameBits(br.a.f, F(br.a.x)) && vf::sameBits(br.b.f, F(br.b.x)) && vf::sameBits(br.c.f, F(br.c.x)),
         "stored values are not f at the stored points: a=(" << vf::dec(br.a.x) << "," << vf::dec(br.a.f) << ") b=(" << vf::dec(br.b.x) << "," << vf::dec(br.b.f) << ") c=(" << vf::dec(br.c.x) << "," << vf::dec(br.c.f) << ")");
   CHECK((br.a.x < br.b.x && br.b.x < br.c.x) || (br.a.x > br.b.x && br.b.x > br.c.x),
@@ -580,14 +640,14 @@ LAW(Lg_inward, RC, 4000, 200000, 24, "the minimiser is strictly inside the inter
   auto F = [&](double x) { return q.s.eval(vector<double>{x}); };
   CHECK(br.a.x == q.a && br.b.x == q.b, "the ends were moved: a.x=" << vf::dec(br.a.x) << " b.x=" << vf::dec(br.b.x));
   CHECK(vf::sameBits(br.a.f, F(br.a.x)) && vf::sameBits(br.b.f, F(br.b.x)) && vf::sameBits(br.c.f, F(br.c.x)), "stored values are not f at the stored points");
-  double slack = 8 * DBL_EPSILON * (std::abs(q.a) + std::abs(q.b));
+  double slack = (nint + 4) * DBL_EPSILON * (std::abs(q.a) + std::abs(q.b));  // the mesh is walked by repeated addition
   CHECK(br.c.x >= min(q.a, q.b) - slack && br.c.x <= max(q.a, q.b) + slack, "c.x=" << vf::dec(br.c.x) << " is outside the interval");
   const Record& r = obj->rec;
   for (size_t e = 0; e < r.count(); ++e) CHECK(br.c.f <= r.fs[e], "c=(" << vf::dec(br.c.x) << "," << vf::dec(br.c.f) << ") is not the lowest evaluated point: f(" << vf::dec(r.xs[e]) << ")=" << vf::dec(r.fs[e]));
   CHECK(br.c.f <= br.a.f && br.c.f <= br.b.f, "f(c) exceeds an end value");
   for (unsigned i = 0; i <= nint; ++i) {  // the mesh was visited
     double g = q.a + (q.b - q.a) * (static_cast<double>(i) / static_cast<double>(nint)); bool seen = false;
-    for (size_t e = 0; e < r.count() && !seen; ++e) seen = std::abs(r.xs[e] - g) <= slack * (nint + 1);
+    for (size_t e = 0; e < r.count() && !seen; ++e) seen = std::abs(r.xs[e] - g) <= slack;
     CHECK(seen, "mesh point " << i << "/" << nint << " (" << vf::dec(g) << ") was never evaluated");
   }
 }
